@@ -57,7 +57,8 @@ def box_cip_tasks(tier):
         for d in (1, 2):
             bound = {"unwind": d + 2, "note": "space dimension %d; interval bounds, special/open bits and status flags arbitrary; loops unwound with unwinding assertions" % d}
             T.append(Task("box/%s/%s/contains_integer_point/dim%d" % (tt, pol, d), u, "FN_b_contains_integer_point", ["C17/box_int.h"], C03.box_vars(),
-                          "_Bool r = FN_b_contains_integer_point(&G_bx)", bounded=bound, timeout=1800, object_bits=9,
+                          "_Bool r = FN_b_contains_integer_point(&G_bx)", bounded=bound,
+                          native=C03.box_native("FN_b_contains_integer_point", "bool", "BOX_T*", "bool r = real_fn(x)", "C_b_contains_integer_point_POSTS(r)"), timeout=1800, object_bits=9,
                           defs={"BOX_D": d, "GHOST_RANGE": "((ex_t)%d)" % (1 << (u.defs["T_W"] + 1))}, split_post=True,
                           stubs=["c12_ghost.c", "c17_ghost.c", "c03_box.c"], harness_pre=C03.BOX_SETUP, group="box %s %s" % (tt, pol),
                           reach=[("answer true", "r"), ("answer false on an unmarked box", "!r && !(fx & BST_EMPTY)")]))
